@@ -39,6 +39,14 @@ class H5Group:
 
     @property
     def group(self):
+        if (self._group is not None and self._group.name is None and
+                self.name in self._parent):
+            # the group this wrapper was bound to has been unlinked from the
+            # file and a group of this name exists again (e.g. an emptied
+            # container that was pruned and later re-created through another
+            # object): bind to the group that is in the file, as every write
+            # through this wrapper does (_create_h5obj)
+            self._group = self._parent[self.name]
         if self._group is None:
             if self.name in self._parent:
                 self._group = self._parent[self.name]
